@@ -514,6 +514,18 @@ class C10:
                 if dl:
                     cases.append({"name": "%s-%s-persist" % (t, tag), "cls": "persist", "init": inits[t](dl), "gate": g, "cmds": [["PERSIST", b"k"]], "model": m_ttl})
                 cases.append({"name": "%s-%s-expire" % (t, tag), "cls": "expire", "init": inits[t](dl), "gate": g, "cmds": [["PEXPIRE", b"k", "70000"]], "model": m_ttl})
+        # TWO changes inside the window, one to the time to live and one in place to the value: a snapshot that took the TTL at one
+        # instant and reads the (shared) value later produces a pair the key never had — a single change cannot show that
+        g = "rdb.after_value"
+        for t in types:
+            inplace = m_zmut if t == "Z" else m_mut
+            cases.append({"name": "%s-ttl-persist-then-grow" % t, "cls": "ttl+grow", "init": inits[t](LONG), "gate": g, "cmds": [["PERSIST", b"k"]] + grow[t],
+                          "model": (lambda f: lambda st: m_ttl(st[:2]) + f(st))(inplace)})
+            cases.append({"name": "%s-nottl-grow-then-expire" % t, "cls": "grow+ttl", "init": inits[t](None), "gate": g, "cmds": grow[t] + [["PEXPIRE", b"k", "70000"]],
+                          "model": (lambda f: lambda st: f(st[:2]) + m_ttl(st))(inplace)})
+            if t in shrink:
+                cases.append({"name": "%s-ttl-shrink-then-persist" % t, "cls": "shrink+ttl", "init": inits[t](LONG), "gate": g, "cmds": shrink[t] + [["PERSIST", b"k"]],
+                              "model": (lambda f: lambda st: f(st[:2]) + m_ttl(st))(inplace)})
         g = "rdb.zset.after_len"
         for dl in (None, LONG):
             tag = "ttl" if dl else "nottl"
